@@ -18,6 +18,7 @@ RULE = (
     "(fitted / False / fixed value per parameter) x sill given / False / None x weights (None, 'inv', array, callable) x init_guess "
     "modes x trf/dogbox x losses x custom bounds; start within +-10% of the truth; parameter recovery is only demanded where the "
     "Jacobian at the truth has condition <= 1e6 (computed by the harness); failed optimisations (RuntimeError) are discarded"
+    " Data layouts (C, Fortran, transposed table, strided, lists); sill-constrained fits with the variance as the only free parameter."
 )
 ASSUMPTIONS = [
     "noise-free data are generated with the model's own variogram functions (tied to closed forms by C03)",
